@@ -27,10 +27,12 @@ def run(tier, seed, t0):
         "splits": (m.bins.get("splits", 0), 1000), "merges": (m.bins.get("merges", 0), 1000), "swaps_done": (m.bins.get("swaps_done", 0), 20),
         "merges_refused": (m.bins.get("merges_refused", 0), 5), "rebases": (m.bins.get("rebases", 0), 20), "direct_ops": (m.bins.get("direct_ops", 0), 50),
         "invariant_checks": (m.bins.get("invariant_checks", 0), 5000),
+        "fan_histories_with_refused_pole_collapse": (m.bins.get("fan_histories_with_refused_pole_collapse", 0), 3),
         "regimeA_histories": (m.bins.get("regimeA_histories", 0), 20), "regimeB_histories": (m.bins.get("regimeB_histories", 0), 20),
     }
     return R.finish(ID, tier, seed, m,
-                    "history = start mesh family x edge-length band (l_max/l_min = 3 or 1.5..10, band centred on a target face count) x swaps on/off x "
+                    "history = start mesh family (incl. the focused probes lens6 [swap that must be refused] and fanN [pole of valence 17-40 with valence-3 neighbours: "
+                    "collapse that must be refused]) x edge-length band (l_max/l_min = 3 or 1.5..10, band centred on a target face count) x swaps on/off x "
                     "5..N passes with stretch/twist/noise between passes (regime A: normals refreshed after the move; regime B: refreshed before, "
                     "one move stale) x compaction with p=1/4 x burst of 1-10 direct split/merge/swap calls with p=1/4; non-trivial = at least one "
                     "split and one merge happened; distinct = hash of the operation-kind sequence and final (V,F)",
